@@ -1,3 +1,4 @@
 import AeicModel.Scalar
 import AeicModel.Wire
 import AeicModel.Generated.Constants
+import AeicModel.Store
